@@ -648,6 +648,30 @@ func processViolation(e Engine, opt *Options, c *violCase) (string, string) {
 	}
 	// 1. confirm from the seed alone (trace nil => generate) in a fresh process.
 	ok, tr2, sample, detail := reproduces(e, fresh, c, nil, false)
+	if !ok && c.death {
+		// A worker death detected by an external monitor (the race detector
+		// keeps four shadow cells per word and evicts at random) may not recur
+		// on every execution of the very same schedule: re-execute up to 12
+		// times and record the frequency.
+		hits, n := 0, 0
+		for n = 1; n <= 12; n++ {
+			var ok2 bool
+			ok2, tr2, sample, detail = reproduces(e, fresh, c, nil, false)
+			if ok2 {
+				hits++
+				if hits >= 2 {
+					break
+				}
+			}
+		}
+		if hits > 0 {
+			ok = true
+			if n > 12 {
+				n = 12
+			}
+			rf.Statistical = fmt.Sprintf("%d of %d further fresh-process executions of the same seed reproduced the report (the detector is not deterministic)", hits, n+1)
+		}
+	}
 	if !ok {
 		return "", "not reproduced from seed in a fresh process"
 	}
@@ -732,9 +756,11 @@ func processViolation(e Engine, opt *Options, c *violCase) (string, string) {
 		}
 		rf.Trace = tr
 	} else {
-		ok, _, _, _ := reproduces(e, fresh, c, nil, false)
-		if !ok {
-			return "", "second replay from seed failed"
+		if rf.Statistical == "" {
+			ok, _, _, _ := reproduces(e, fresh, c, nil, false)
+			if !ok {
+				return "", "second replay from seed failed"
+			}
 		}
 		rf.Note = "worker death: replay regenerates the run from run_seed"
 	}
